@@ -421,7 +421,7 @@ func (g *c01gen) richOp(ns string) []string {
 	case 0:
 		return []string{g.cm("drain-support=" + gen.Pick(r, []string{"true", "true", "false"}))}
 	case 1:
-		return []string{g.cm(gen.Pick(r, []string{"-", "max-connections=500", "drain-support=true;max-connections=500"}))}
+		return []string{g.cm(gen.Pick(r, []string{"-", "max-connections=500", "drain-support=true;max-connections=500", "ssl-redirect-code=301", "ssl-headers-prefix=X-TLS;ssl-redirect-code=307"}))}
 	default:
 		// a pod of service `s` appears together with its endpoint, or starts terminating and leaves the endpoints
 		s := gen.Pick(r, g.svcs)
@@ -469,6 +469,10 @@ func (g *c01gen) history() []string {
 		ops = append(ops, "cls+hap:"+world.OurController)
 	}
 	ops = append(ops, "cls+foreign:example.com/other")
+	if g.rich && r.Chance(1, 4) {
+		// --backend-shards: shard files also render global settings (repair of the stale shards after a global change)
+		ops = append([]string{"opt~shards=" + gen.Pick(r, []string{"1", "2", "3"})}, ops...)
+	}
 	if g.rich && r.Chance(1, 3) {
 		g.xns = true
 	}
